@@ -95,14 +95,14 @@ UNITS = [
 # ---------------------------------------------------------------------------
 GQ = "src/orange/surf/GeneralQuadric.hh"
 GQ_MODEL = """
-/* exact-integer abstraction (VERIF_REAL_AS_INT).  Every variable occurs with degree <= 2 in the identity below, so a polynomial that
+/* exact-integer abstraction (VERIF_REAL_BITS: small signed values, arithmetic in int).  Every variable occurs with degree <= 2 in the identity below, so a polynomial that
    vanishes for all values in {-1, 0, 1} vanishes identically: the range {-1,0,1} per variable is a COMPLETE proof of the identity over the reals. */
 typedef struct { real_type a_, b_, c_, d_, e_, f_, g_, h_, i_, j_; } GeneralQuadric;
 typedef struct { real_type v[2]; } Intersections;
-real_type g_a, g_b, g_c;     /* ghost: the quadratic coefficients handed to the solver (a, b, c with half_b = b / 2) */
+int g_a, g_b, g_c;     /* ghost: the quadratic coefficients handed to the solver (a, b, c with half_b = b / 2) */
 Intersections QS_solve_general(real_type a, real_type half_b, real_type c, int on_surface) __CPROVER_requires(1) __CPROVER_assigns() __CPROVER_ensures(1);
 /* the surface function  f(x,y,z) = a x^2 + b y^2 + c z^2 + d xy + e yz + f zx + g x + h y + i z + j  (GeneralQuadric.hh class documentation) */
-static real_type gq_eval(GeneralQuadric const* q, real_type x, real_type y, real_type z)
+static int gq_eval(GeneralQuadric const* q, int x, int y, int z)
 {
     return q->a_ * x * x + q->b_ * y * y + q->c_ * z * z + q->d_ * x * y + q->e_ * y * z + q->f_ * z * x + q->g_ * x + q->h_ * y + q->i_ * z + q->j_;
 }
@@ -138,8 +138,8 @@ void h_gq(void)
 
 
 UNITS += [
-    Unit("c12_gq_ray_coeffs", build_gq_coeffs, "h_gq", enforce="GQ_calc_intersections", replace=["QS_solve_general"], timeout=900, backend=["sat", "kissat", "cvc5"], defines=["VERIF_REAL_AS_INT"],
-         bounded="exact-integer abstraction of real_type with every variable in {-1,0,1}; complete for the polynomial identity (degree <= 2 per variable); floating-point rounding not covered",
+    Unit("c12_gq_ray_coeffs", build_gq_coeffs, "h_gq", enforce="GQ_calc_intersections", replace=["QS_solve_general"], timeout=900, backend=["sat", "kissat", "cvc5"], defines=["VERIF_REAL_BITS=8"],
+         bounded="exact-integer abstraction of real_type (8-bit signed values, int arithmetic) with every variable in {-1,0,1}; complete for the polynomial identity (degree <= 2 per variable); floating-point rounding not covered",
          must_have=[r"GQ_calc_intersections.postcondition"], checks=["--bounds-check", "--pointer-check", "--signed-overflow-check"],
          assumptions=["QuadraticSolver::solve_general not under contract (sqrt)"],
          note="GeneralQuadric::calc_intersections: the quadratic handed to the solver is the surface function along the ray, f(pos + t dir) == a t^2 + b t + c"),
